@@ -496,6 +496,18 @@ func c20Custom(c *run.Ctx) {
 				c.Violate(run.Violation{Kind: "debug-leaked", Key: "debug-leaked key-fetcher error text " + where, Detail: "the text of an internal error reached the client although debug exposure is off: " + text})
 			}
 		}
+		// the fetch of a registered request_uri fails at the transport: the dialer's error text is internal detail too
+		w.FetchErr = func(u string) error {
+			return errors.New("dial tcp 10.1.2.3:3128: connect: connection refused " + fetchCanary)
+		}
+		qt := url.Values{}
+		for k, v := range q {
+			qt[k] = v
+		}
+		qt.Set("request_uri", "https://client.example/c20j.jwt")
+		outT := w.Authorize(qt, world.Consent{})
+		leak("authorize request_uri transport-failure", outT.Location+" "+outT.Body)
+		w.FetchErr = nil
 		for _, via := range []string{"request", "request_uri"} {
 			qq := url.Values{}
 			for k, v := range q {
